@@ -33,6 +33,7 @@ type evLog struct {
 	mu   sync.Mutex
 	evs  []logEv
 	last int64 // time of the latest event (unix ns): the progress watchdog looks at it
+	reqs int32 // REQ packets handed to the stream so far
 }
 
 func (l *evLog) idleFor() time.Duration {
@@ -45,6 +46,9 @@ func (l *evLog) idleFor() time.Duration {
 
 func (l *evLog) add(e logEv) int {
 	atomic.StoreInt64(&l.last, time.Now().UnixNano())
+	if e.Typ == "REQ" && e.Kind == "send" {
+		atomic.AddInt32(&l.reqs, 1)
+	}
 	l.mu.Lock()
 	e.Seq = len(l.evs)
 	l.evs = append(l.evs, e)
